@@ -81,7 +81,10 @@ class C08:
                 n = rng.randint(2, 9)
             else:
                 n = rng.randint(10, nmax)
-            if rng.random() < 0.3:
+            u = rng.random()
+            if u < 0.2 or (rank == 'hull' and u < 0.5):
+                fam, pts = gen.wavy_curve(rng, rng.randint(20, nmax + 24))
+            elif u < 0.45:
                 fam, pts = gen.mrc_curve(rng, n)
                 fam = 'mrc-' + fam
             else:
